@@ -109,13 +109,16 @@ structure Build where
   act : Bool
   ks : List Kind := []
   bad : Bool := false
+  /-- `SWAPMW`: the application replaced its middleware stack (`Flame.Handlers`) by the same handlers in reverse order -/
+  swapped : Bool := false
+  served : Bool := false
 
 def Build.cfg (b : Build) (dev bug head : Bool) : Option Cfg :=
   let want := b.nmw + b.ngrp + b.nrt + (if b.act then 1 else 0)
   if b.bad || b.ks.length != want then none
   else
     let ks := b.ks
-    some { mw := ks.take b.nmw, grp := (ks.drop b.nmw).take b.ngrp,
+    some { mw := if b.swapped then (ks.take b.nmw).reverse else ks.take b.nmw, grp := (ks.drop b.nmw).take b.ngrp,
            rt := (ks.drop (b.nmw + b.ngrp)).take b.nrt,
            action := if b.act then ks[b.nmw + b.ngrp + b.nrt]? else none,
            dev := dev, onceBug := bug, head := head }
@@ -135,8 +138,12 @@ def session (args : List String) (lines : List (List String)) : List String :=
           | none => "bad-op" :: go { b with bad := true } rest
         else if l == ["REQ"] then
           match b.cfg dev bug head with
-          | some c => showSt c (serve c) :: go b rest
+          | some c => showSt c (serve c) :: go { b with served := true } rest
           | none => "bad-session" :: go b rest
+        else if l == ["SWAPMW"] then
+          -- createContext reads `f.handlers` for every request: the next request runs the new stack
+          if (b.cfg dev bug head).isSome && b.served then "swapped" :: go { b with swapped := !b.swapped } rest
+          else "bad-op" :: go b rest
         else "bad-op" :: go b rest
     "new" :: go { nmw := natOf nmw, ngrp := natOf ngrp, nrt := natOf nrt, act := act == "1" } lines
   | _ => "bad-session" :: lines.map (fun _ => "bad-session")
